@@ -5,10 +5,25 @@ SPEC = {
     'claimed': True,
     'theorems': ['C36_reply_to_own_request', 'C36_responder_holds_current_request', 'C36_at_most_once_delivery',
                  'C36_reply_without_discipline_refuted', 'C36_discipline_satisfiable',
+                 'C36_discipline_satisfiable_two_subscriptions',
                  'C36_after_close_errors', 'C36_queue_close_closes_topics',
                  'C36_close_call_closes', 'C36_close_call_sets_closed', 'C36_never_subscribed_client_closes',
-                 'C36_after_close_no_block_forever', 'C36_after_close_parked_send_returns_error',
-                 'C36_parked_low_sender_woken', 'C36_parked_high_sender_woken', 'C36_bulk_fill_agrees'],
+                 'C36_after_close_parked_send_returns_error_refuted', 'C36_after_close_parked_send_returns_error_partial',
+                 'C36_after_close_no_block_forever_partial', 'C36_atomic_queue_close_meets_guard',
+                 'C36_send_parked_inside_queue_close_never_woken',
+                 'C36_parked_low_sender_woken', 'C36_parked_high_sender_woken', 'C36_bulk_fill_agrees',
+                 'C36_wait_returns_iff',
+                 'C36_closed_subscriber_topics_closed_refuted', 'C36_closed_subscriber_topics_closed_partial',
+                 'C36_closed_subscriber_last_topic_closed', 'C36_two_topic_subscriber_leaves_topic_open',
+                 'C36_single_sub_satisfiable',
+                 'C36_close_never_panics_refuted', 'C36_close_never_panics_partial', 'C36_close_panics_iff_overlap',
+                 'C36_overlapping_close_panics', 'C36_sequential_closes_satisfiable',
+                 'C36_pump_stops_only_on_close_refuted', 'C36_pump_stops_only_on_close_partial',
+                 'C36_running_pump_takes', 'C36_lookalike_loses_request', 'C36_nonzero_id_guard_satisfiable',
+                 'C36_closed_queue_no_open_topic_refuted', 'C36_closed_queue_no_open_topic_partial',
+                 'C36_wait_after_queue_close_refuted', 'C36_wait_after_queue_close_partial',
+                 'C36_known_topic_wait_returns', 'C36_send_racing_queue_close', 'C36_late_topic_wait_blocks',
+                 'C36_topic_guard_satisfiable'],
     'allowed_axioms': [],
     'shard': 60,
     'check_preamble': 'From C33 Require Import C36.Model C36.Spec.\nOpen Scope N_scope.\n',
@@ -20,8 +35,17 @@ SPEC = {
             'and records which parked calls returned and len(high), len(low) per topic, len(recv) per client; at the end the '
             'sends still parked (looked at again 3 s after the last call when the queue was closed). Topics are preset through the hook with '
             'capacities high 1-3 / low 1-4 (recv is 5 as in the code); one scenario uses the real 64/40960 channels. 1-2 topics, '
-            '2-4 clients, 6-40 calls, generated online from the API-level view. Streams: disciplined (discipline kept; '
-            'no open finding, every spec failure is a violation), '
+            '2-4 clients, 6-40 calls, generated online from the API-level view. Streams: disciplined (discipline kept, one Sub per '
+            'client, no ID-0 message, no overlapping Close, no new topic after Queue.Close: inside every guard, every spec failure is a violation), '
+            'multisub (client 0 subscribed to two topics; may meet finding 3), raw (queue.NewMessage(0,topic,0,nil) among the '
+            'requests; finding 5), overlap (subscriber not reading, Close called again while a Close of the same client waits, the '
+            'panic recovered and the scenario continued; finding 4), witness-two-topics / -one-topic-twice / -two-topics-roundtrip / '
+            '-overlapping-close / -lookalike / -late-topic (scripted, deterministic) and witness-race-queue-close (Queue.Close in one '
+            'goroutine, its locked loop made long by 60000 unused preset topics; as soon as a goroutine is inside Close.func1 a Send '
+            'to a never-used topic is issued; the outcome is written as the interleaving [Close called; send; Close returned] / '
+            '[send; Close] / [Close; send] that the observed result and the topic state select, the two intermediate steps carry no '
+            'observation; finding 6) and witness-race-queue-close-park (the same with 66 wait-forever sends to the new topic: 64 are '
+            'accepted, 2 park and are still parked 3 s after the queue was closed), '
             'undisciplined (FreeMessage of messages still in flight: clauses 1-2 are not promised), witness-* '
             '(fixed: parked low wait-forever sender woken by close in 5 shapes incl. real capacities, high sender woken by close, '
             'Close of a never-subscribed client, round trip with recycling, stale reply through a recycled message). (b) concurrent: several requesters/responders on 1-3 topics with random '
@@ -31,7 +55,13 @@ SPEC = {
     'trusted_base': [
         'model = hand-written LTS (Model.v) of queue/queue.go + queue/client.go at the granularity "one channel operation / '
         'one locked section = one event"; the pump goroutine evaluates its outer and inner select as one event (so a low-priority '
-        'message is never taken after the topic was closed); Go select picks any ready case (modelled as several enabled events)',
+        'message is never taken after the topic was closed); Go select picks any ready case (modelled as several enabled events); '
+        'the pump of the first Sub lives in the client record, later ones in s_xp (same code, EX* events); a pump may leave through '
+        'client.done whenever the client is closing (over-approximation of "it is in its inner select"), Check.pump_next follows the '
+        'real order (high first, then low against client.done); a raw message is the model object with ID 0',
+        'the race witness is linearised by the harness from call order, results and the topic state after the run (Queue.Close is '
+        'known to be inside its locked function when the Send is issued: runtime.Stack); outcomes the scripted format cannot express '
+        '(topic created before the walk, send then sees done closed) are run again, at most 8 times',
         'ghost state in the model (never read by step): o_sent, o_where, s_deliv; the discipline predicate disc refers to o_where / o_sent',
         'correspondence is by scripted scenarios: not enabled = "the call has not returned although all other goroutines are '
         'parked" (goroutine states from runtime.Stack), plus the 3 s re-check of parked sends at the end',
@@ -49,18 +79,24 @@ SPEC = {
         'message"; all in-tree callers free only after a successful Wait). Without it the late reply reaches the next user of '
         'the recycled object (C36_reply_without_discipline_refuted, reproduced on the Go code by the undisciplined witness)',
         'responders reply with the ID they read when they received the message, at most once per received message',
-        'one Sub per client; Close of a client is not called concurrently with itself (a second overlapping Close would '
-        'close(client.done) twice); messages with Data == nil, ID == 0 and Ty == 0 (which the pump takes for the close '
-        'sentinel) and callback messages (NewMessageCallback) are not modelled',
-        'after close, Wait is shown to return for messages whose topic is closed (all topics that existed at Queue.Close, '
-        'C36_queue_close_closes_topics) or for callers whose own client is closed; a Wait on a message of a topic first used after '
-        'Queue.Close can block (such a message cannot have been sent)',
+        'the reply / at-most-once theorems are stated for disciplined traces, which exclude ENewRaw (a request built with '
+        'queue.NewMessage(0, topic, 0, nil)); several Subs per client, overlapping Close calls and the two-part Queue.Close are inside them',
+        'guards of the _partial theorems (all boolean): single_sub (every topic the client subscribed to is the topic of its last Sub), '
+        'close_in_progress = false (no Close of that client between close(client.done) and isClosed = 1), rdisc (every message sent '
+        'has a non-zero ID), qdisc (once Queue.Close has walked the topics no call names a topic that did not exist then), bdisc (no '
+        'send parks between the walk and isClose = 1; met by every trace with the atomic ECloseQueue only: C36_atomic_queue_close_meets_guard)',
+        'callback messages (NewMessageCallback), a Sub racing the Close of the same client, and raw messages with a non-zero ID that '
+        'collides with a pooled ID are not modelled',
     ],
     'manifest': {
-        'level_text': 'reply/at-most-once proved for all interleavings of disciplined traces of the LTS (refuted without the FreeMessage discipline, which is the API contract); after-close '
-                      'errors proved; "no send blocks for ever after close" proved at full strength (every parked send returns '
-                      'an error once the queue is closed; finding 1 fixed); '
-                      '"a returned Close call closes the client" proved for every client, subscribed or not (finding 2 fixed). Tie to the Go code by '
+        'level_text': 'reply/at-most-once proved for all interleavings of disciplined traces of the LTS, now with several subscriptions per client, '
+                      'overlapping Close calls and Queue.Close in two parts (refuted without the FreeMessage discipline, which is the API contract); '
+                      'after-close errors proved for the extended system with the exact condition under which a Wait returns (C36_wait_returns_iff); '
+                      '"a returned Close call closes the client" proved for every client. PARTIAL in four places, each with a refutation reproduced '
+                      'on the Go code (open findings 3-6): a closed subscriber closes only the topic of its last Sub; a Close overlapping a Close of '
+                      'the same client panics; a message with ID 0 / Ty 0 / nil Data stops the subscriber pump and later requests are lost; topics '
+                      'first named while or after Queue.Close runs are created open inside the closed queue (Send accepted, Wait or a parked Send '
+                      'blocks for ever), so "every parked send returns once the queue is closed" now needs the guard bdisc. Tie to the Go code by '
                       'scripted event-by-event correspondence; the concurrent runs are a test',
         'level_note': 'hand-written LTS, event granularity and pump atomicity as listed in the trusted base; blocking observed '
                       'through goroutine states; hook file for small capacities',
